@@ -284,6 +284,12 @@ func MarshalValue(ctx Ctx, value reflect.Value, cont Proc) Proc {
 				token.Value = toBytes(value)
 				return cont, nil
 			} else {
+				if value.Kind() == reflect.Slice && value.Len() > 0 {
+					// a slice can contain itself
+					if err := ctx.enterReference(value.Pointer()); err != nil {
+						return nil, err
+					}
+				}
 				return MarshalArray(ctx, value, 0, cont), nil
 			}
 
@@ -296,6 +302,12 @@ func MarshalValue(ctx Ctx, value reflect.Value, cont Proc) Proc {
 			return MarshalStruct(ctx, value, cont), nil
 
 		case reflect.Map:
+			if value.Len() > 0 {
+				// a map can contain itself
+				if err := ctx.enterReference(value.Pointer()); err != nil {
+					return nil, err
+				}
+			}
 			return MarshalMap(ctx, value, cont), nil
 
 		case reflect.Func:
@@ -339,6 +351,25 @@ func MarshalValue(ctx Ctx, value reflect.Value, cont Proc) Proc {
 	}
 
 	return marshal
+}
+
+// enterReference counts one more level of indirection through a slice or map
+// and, once cycle detection is enabled, reports a reference that is already
+// on the current path.
+func (ctx *Ctx) enterReference(ptr uintptr) error {
+	ctx.pointerDepth++
+	if ctx.pointerDepth == 1000 {
+		ctx.detectCycleEnabled = true
+	}
+	if ctx.detectCycleEnabled {
+		for _, p := range ctx.visitedPointers {
+			if p == ptr {
+				return we.With(WithPath(*ctx), e5.With(CyclicPointer))(MarshalError)
+			}
+		}
+		ctx.visitedPointers = append(ctx.visitedPointers, ptr)
+	}
+	return nil
 }
 
 var arrayEndToken = reflect.ValueOf(&Token{
